@@ -92,6 +92,8 @@ def records(ctx):
         for name, fn, full in (('neg', lambda: -a, True), ('abs', lambda: abs(a), True), ('log', lambda: a.log(), True),
                                ('copy', lambda: a.copy(), True), ('slice', lambda: a[1:], False),
                                ('ll_per_bin', lambda: Inference.ll_per_bin(a * 1.1, a), False),
+                               # a model without any mask against data with masks: the data's mask must survive
+                               ('ll_per_bin_datamask', lambda: Inference.ll_per_bin(dadi.Spectrum(a.data * 1.1, mask_corners=False, data_folded=bool(a.folded), check_folding=False, pop_ids=a.pop_ids), a), True),
                                ('residual', lambda: Inference.linear_Poisson_residual(a * 1.1, a), False)):
             try:
                 res = fn()
